@@ -345,6 +345,12 @@ func runC14(c map[string]string, dir string, thorough bool) map[string]interface
 				sk = keyPem(&sm2.PrivateKey{PublicKey: sign.PrivateKey.(*sm2.PrivateKey).PublicKey, D: other.D})
 			case "swapped":
 				sk, ek = ek, sk
+			case "match_prefixed":
+				// the matching keys, each behind other PEM blocks in its input (an EC PARAMETERS block as openssl writes it,
+				// and the certificate itself as in a combined certificate + key file): the key block is the one that counts
+				ecp := pem.EncodeToMemory(&pem.Block{Type: "EC PARAMETERS", Bytes: []byte{0x06, 0x08, 0x2a, 0x81, 0x1c, 0xcf, 0x55, 0x01, 0x82, 0x2d}})
+				sk = append(append(append([]byte(nil), ecp...), pemCert(sign.Certificate[0])...), sk...)
+				ek = append(append([]byte(nil), ecp...), ek...)
 			}
 			scert, ecert := pemCert(sign.Certificate[0]), pemCert(enc.Certificate[0])
 			if c["shape"] == "match_chain" || c["shape"] == "chain_cakey" {
